@@ -195,7 +195,7 @@ func allocExample(fn string) string {
 }
 
 func init() {
-	register(&Rule{ID: "COPY-empty-dst", Props: []string{"C17", "C20"}, Min: 2,
+	register(&Rule{ID: "COPY-empty-dst", Props: []string{"C17", "C20"}, Min: 1,
 		Doc: "G (library precondition, census): the builtin copy(dst, src) copies min(len(dst), len(src)) elements, so a destination made with length 0 (make([]T, 0, n)) receives nothing however large its capacity. Every copy of the module whose destination is a slice made in the same function must have been made with a non-zero length (the source's length, or a length the code computes); `out := make([]string, 0, len(in)); copy(out, in)` in a clone method hands the copy an empty table",
 		Run: ruleCopyEmptyDst})
 }
@@ -232,4 +232,50 @@ func ruleCopyEmptyDst(c *Ctx, r *R) {
 		}
 	}
 	r.note("copies", n)
+}
+
+func init() {
+	register(&Rule{ID: "LIB-time-range", Props: []string{"C12"}, Min: 1,
+		Doc: "G (library domain, census): ES5 time values span +-8.64e15 ms (about +-275760 years); int64 nanoseconds span 1678..2262 only. Package otto converts between time.Time and the time value with the millisecond accessors; a call of (time.Time).UnixNano, or of the Duration-valued Sub / Since / Until on a time a script can choose, wraps around silently for dates outside that window (`Date.UTC(2300, 0, 1)` negative). Every such call is reported unless reviewed; the census must see the millisecond conversions it accepts",
+		Run: ruleLibTimeRange})
+}
+
+var libTimeReviewed = map[string]string{
+	"builtinDateGetTimezoneOffset:Sub": "the two operands are the same instant read in two zones: their difference is the zone offset, hours at most",
+}
+
+func ruleLibTimeRange(c *Ctx, r *R) {
+	nMilli := 0
+	for _, fn := range c.AllSrcFuncs("") {
+		ord := map[string]int{}
+		for _, b := range fn.Blocks {
+			for _, ins := range b.Instrs {
+				call, ok := ins.(*ssa.Call)
+				if !ok {
+					continue
+				}
+				callee := call.Call.StaticCallee()
+				if callee == nil || callee.Pkg == nil || callee.Pkg.Pkg.Path() != "time" || callee.Signature.Recv() == nil {
+					continue
+				}
+				if !typeIs(callee.Signature.Recv().Type(), "time", "Time") {
+					continue
+				}
+				switch callee.Name() {
+				case "UnixMilli", "Unix":
+					nMilli++
+				case "UnixNano", "Sub":
+					base := ssaFuncName(fn) + ":" + callee.Name()
+					ord[base]++
+					key := fmt.Sprintf("%s#%d", base, ord[base])
+					if why, ok := libTimeReviewed[base]; ok {
+						r.ok("reviewed:"+key, c.Pos(instrPos(call)), why)
+						continue
+					}
+					r.bad(key, c.Pos(instrPos(call)), fmt.Sprintf("%s measures a script-chosen time in int64 nanoseconds (time.Time.%s): that covers the years 1678..2262 only, outside it the value wraps silently - `Date.UTC(2300, 0, 1)` comes out negative, `new Date(0).setUTCFullYear(1600)` reads back as 2184; ES5 time values reach +-275760 years, which the millisecond accessors cover", ssaFuncName(fn), callee.Name()))
+				}
+			}
+		}
+	}
+	r.check(nMilli >= 1, "census", "-", fmt.Sprintf("%d millisecond / second conversions of time.Time seen", nMilli), "no UnixMilli / Unix conversion of a time.Time found: the census no longer sees how dates become time values")
 }
